@@ -264,7 +264,8 @@ def run_el(case):
         if fmat(R) != exp:
             V.append(('threshold_absolute', 'cellwise', dict(det, result=frs_str(fmat(R)), expected=frs_str(exp)),
                       {'entry_equals_thr': any(f == thr for f in F)}))
-        out['lean'].append(('tabs n=%d W=%s thr=%s' % (n, Ws, rat_str(thr)), 'R=' + frs_str(fmat(R)), 'threshold_absolute'))
+        if n <= 16:
+            out['lean'].append(('tabs n=%d W=%s thr=%s' % (n, Ws, rat_str(thr)), 'R=' + frs_str(fmat(R)), 'threshold_absolute'))
         if any(e != 0 for e in exp) and exp != [F[i * n + j] if i != j else Fr(0) for i in range(n) for j in range(n)]:
             out['keys'].append(digest(['ta', case['W'], ts]))
     # binarize
@@ -345,6 +346,10 @@ def run_el(case):
         out['keys'].append(digest(['el', case['W']]))
         if out['sample'] is None and Ri is not None:
             out['sample'] = {'function': 'invert/normalize/binarize/threshold_absolute', 'n': n, 'W': Ws, 'thrs': case['thrs'], 'invert': frs_str(fmat(Ri))}
+    if n > 16:
+        out['lean'] = []          # size axis: the interpreted driver is too slow for n >= 33 (Python predicates only)
+        out['sample'] = None
+    out['dist']['el_n=%d' % n] = 1
     return out
 
 
@@ -555,6 +560,125 @@ def run_reuse(case):
     if case['mode'] == 'edit-result' and not same_bits(A, before):
         out['viol'].append((fname, 'copy-true-argument-untouched', det, {'copy': True}))
     out['keys'].append(digest(['reuse', case['target'], case['mode'], case['W'], case['seed']]))
+    return out
+
+
+# ------------------------------------------------------------------ size axis and special values (round 4)
+
+SIZE_NS = (9, 12, 16, 33, 65, 130)
+
+
+def gen_size_cases(rs, quick):
+    """threshold_proportional / elementwise cases for n = 9..130: > 64 candidate links (size-dependent fast paths), exactly 64 / 65 / 66
+    links, ties everywhere, p rounding to 0 links, 1 link, all links, one below / above the number of links present."""
+    tp, el = [], []
+    for n in SIZE_NS:
+        fams = ['all-equal', 'two-values', 'distinct'] if (not quick or n <= 33) else ['two-values']
+        for sym in (True, False):
+            cnt = (n * n - n) // (2 if sym else 1)
+            for fam in fams:
+                for links in ([64, 65, 66, None] if cnt >= 66 and n <= 16 else [None]):
+                    M = [[Fr(0)] * n for _ in range(n)]
+                    cells = [(i, j) for i in range(n) for j in range(n) if (i < j if sym else i != j)]
+                    order = [cells[t] for t in rs.permutation(len(cells))]
+                    use = order[:links] if links else [c for c in order if rs.rand() < (.9 if n <= 33 else .5)]
+                    for t, (i, j) in enumerate(use):
+                        w = Fr(1) if fam == 'all-equal' else Fr(int(rs.randint(1, 3))) if fam == 'two-values' else Fr(t + 1, 4)
+                        M[i][j] = w
+                        if sym:
+                            M[j][i] = w
+                    nl = len(use)
+                    cand = [Fr(0), Fr(1, 2 ** 20), Fr(float(Fr(1, 4 * cnt))), Fr(float(Fr(1, cnt))), Fr(float(Fr(3, 2 * cnt))),
+                            Fr(float(Fr(nl - 1, cnt))), Fr(float(Fr(nl, cnt))), Fr(float(Fr(min(nl + 1, cnt), cnt))), Fr(1, 2), Fr(1)]
+                    ps = sorted(set(cand)) if (n <= 33 or not quick) else [Fr(0), Fr(float(Fr(1, 4 * cnt))), Fr(float(Fr(1, cnt))), Fr(float(Fr(nl, cnt))), Fr(1)]
+                    tp.append({'n': n, 'W': [dy(M[i][j]) for i in range(n) for j in range(n)], 'ps': [dy(p) for p in ps if 0 <= p <= 1],
+                               'kind': 'size/%s/%s/%s' % ('sym' if sym else 'asym', fam, links or 'dense'), 'model': n <= 12 and fam != 'distinct'})
+        # elementwise utilities at this size: signed dyadic weights, largest magnitude exactly 1, ties
+        for fam in ('unit-max', 'signed-ties') if (not quick or n <= 65) else ('unit-max',):
+            vals = [Fr(-1), Fr(1), Fr(1, 2), Fr(-1, 4), Fr(0)] if fam == 'unit-max' else [Fr(-2), Fr(2), Fr(0), Fr(3)]
+            W = [vals[int(rs.randint(len(vals)))] for _ in range(n * n)]
+            W[1] = vals[0]
+            el.append({'n': n, 'W': [dy(x) for x in W], 'thrs': [dy(Fr(1, 2)), dy(Fr(1))], 'bad_wcm': []})
+    return tp, el
+
+
+def run_special(case):
+    """IEEE special values for every utility and both copy flags: -0.0 zeros, +-inf weights, largest magnitude exactly 1.0.
+    Content is judged cell by cell against the routine's definition read in IEEE arithmetic (x != 0, x < thr, x / max|x|, 1 / x),
+    together with the identity / aliasing / argument-untouched predicates.  case: n, kind, seed."""
+    bct = import_bct()
+    rs = np.random.RandomState(case['seed'])
+    n = case['n']; kind = case['kind']
+    out = {'viol': [], 'lean': [], 'evals': 0, 'keys': [], 'dist': {}, 'sample': None}
+    V = out['viol']
+    base = rs.choice([0.0, 0.5, -0.25, 1.0, -1.0, 0.125], size=(n, n))
+    if kind == 'neg-zero':
+        base[base == 0.0] = -0.0; base[0, 1] = 0.75
+    elif kind == 'inf':
+        base[0, 1] = np.inf; base[1, 0] = -np.inf if case['seed'] % 2 else np.inf; base[n - 1, 0] = np.inf
+    elif kind == 'unit-max':
+        base = np.clip(base, -1, 1); base[0, 1] = 1.0 if case['seed'] % 2 else -1.0
+    elif kind == 'binary':
+        base = (rs.rand(n, n) < .5).astype(float); base[0, 1] = 1.0
+    thr = 0.5
+    p = float(rs.randint(0, 65)) / 64
+    nonneg = np.abs(base)
+    def ta(E):
+        R = E.copy(); R[np.eye(n, dtype=bool)] = 0; R[R < thr] = 0; return R
+    def inv(E):
+        R = E.copy(); nz = E != 0
+        with np.errstate(all='ignore'):
+            R[nz] = 1.0 / E[nz]
+        return R
+    def nrm(E):
+        with np.errstate(all='ignore'):
+            return E / np.abs(E).max()
+    jobs = [('threshold_absolute', bct.threshold_absolute, (thr,), base, ta), ('binarize', bct.binarize, (), base, lambda E: np.where(E != 0, 1.0, E)),
+            ('normalize', bct.normalize, (), base, nrm), ('invert', bct.invert, (), base, inv),
+            ('weight_conversion', bct.weight_conversion, ('binarize',), base, lambda E: np.where(E != 0, 1.0, E)),
+            ('weight_conversion', bct.weight_conversion, ('normalize',), base, nrm), ('weight_conversion', bct.weight_conversion, ('lengths',), base, inv)]
+    if kind in ('unit-max', 'binary', 'neg-zero'):
+        jobs.append(('threshold_proportional', bct.threshold_proportional, (p,), nonneg, None))
+    for fname, f, args, M, exp in jobs:
+        want = exp(M) if exp else None
+        for cp in (True, False):
+            A = M.copy(); A0 = M.copy()
+            st, R = call(f, A, *args, copy=cp, t=10, retry=10)
+            out['evals'] += 1
+            out['dist']['special:' + kind] = out['dist'].get('special:' + kind, 0) + 1
+            cond = {'special': kind, 'copy': cp}
+            det = {'kind': 'special', 'n': n, 'special': kind, 'seed': case['seed'], 'function': fname, 'args': [str(a) for a in args], 'copy': cp,
+                   'W': [repr(x) for x in M.ravel().tolist()] if n <= 6 else 'regenerated from (n, special, seed)'}
+            if st == 'timeout':
+                V.append((fname, 'timeout', det, cond)); continue
+            if st == 'exc':
+                V.append((fname, 'raises', dict(det, exception=R), cond)); continue
+            if cp:
+                if A.tobytes() != A0.tobytes():
+                    V.append((fname, 'copy-true-argument-untouched', det, cond))
+                if R is A or np.shares_memory(R, A):
+                    V.append((fname, 'copy-true-new-object', det, cond))
+                got = R
+            else:
+                if R is not A:
+                    V.append((fname, 'copy-false-returns-argument', det, cond))
+                got = A
+            if want is not None:
+                if not (got.shape == want.shape and np.array_equal(got, want, equal_nan=True)):
+                    bad = np.argwhere(~((got == want) | (np.isnan(got) & np.isnan(want))))[:3].tolist()
+                    V.append((fname, 'special-values-content', dict(det, cells=bad, got=[repr(float(got[i, j])) for i, j in bad],
+                                                                    expected=[repr(float(want[i, j])) for i, j in bad]), cond))
+            else:
+                # threshold_proportional on a non-negative matrix with -0.0 zeros / unit maximum: count, entries, diagonal
+                o = tp_oracle(M, Fr(p), tp_mode(bct))
+                nzc = int(np.count_nonzero(got))
+                wantc = o['true_ud'] * min(o['true_en'], len(o['true_cells']))
+                W0 = o['W0']
+                if nzc != wantc:
+                    V.append((fname, 'kept-count', dict(det, nonzero_cells=nzc, expected=wantc, p=p), cond))
+                if not np.all((got == 0) | (got == W0)):
+                    V.append((fname, 'entries', dict(det, p=p), cond))
+            out['keys'].append(digest(['special', kind, n, case['seed'], fname, args, cp]))
     return out
 
 
@@ -801,7 +925,7 @@ def main():
     if ck.tier == 'thorough' and ok:
         ck.leanchecker(['BctVerif.Props.C17', MODEL])
     rs = ck.rs
-    tp_cases, par_cases, el_cases, rd_cases, rp_cases, ru_cases = [], [], [], [], [], []
+    tp_cases, par_cases, el_cases, rd_cases, rp_cases, ru_cases, sp_cases = [], [], [], [], [], [], []
     if ck.replay:
         rp = json.load(open(ck.replay)); c = rp['case']
         if c.get('kind') == 'tp':
@@ -813,6 +937,8 @@ def main():
             el_cases.append({'n': c['n'], 'W': c['W'].split(','), 'thrs': [c['thr']] if 'thr' in c else thr_values(F, rs), 'bad_wcm': ['invert']})
         elif c.get('kind') == 'round':
             rd_cases.append([c['x']])
+        elif c.get('kind') == 'special':
+            sp_cases.append({'n': c['n'], 'kind': c['special'], 'seed': c['seed']})
         elif c.get('kind') == 'reuse':
             for sd in [c['seed']] + list(range(20)):
                 ru_cases.append({'n': c['n'], 'W': c['W'].split(','), 'sym': c['sym'], 'target': c['target'], 'mode': c['mode'], 'other': c.get('other'),
@@ -840,6 +966,17 @@ def main():
                     el_cases.append({'n': 2, 'W': [dy(x) for x in W2], 'thrs': thr_values(W2, rs), 'bad_wcm': ['invert']})
         rd_cases = chunks(round_inputs(rs, quick), 50)
         rp_cases = gen_repr_cases(rs, quick)
+        # round 4: size axis (n = 9 .. 130, 64 / 65 / 66 links, ties, p -> 0 / 1 / all links) and IEEE special values
+        stp, sel = gen_size_cases(rs, quick)
+        for c in stp:
+            for pc in chunks(c['ps'], 5):
+                tp_cases.append(dict(c, ps=pc))
+        el_cases += sel
+        ck.count('size_axis_tp_matrices', len(stp)); ck.count('size_axis_el_matrices', len(sel))
+        for kind in ('neg-zero', 'inf', 'unit-max', 'binary'):
+            for n in (2, 3, 5) + (SIZE_NS if not quick else (9, 16, 65)):
+                for r_ in range(2 if quick else 6):
+                    sp_cases.append({'n': n, 'kind': kind, 'seed': int(rs.randint(2 ** 31))})
         # round 3: object-reuse probes, every utility x {edit the argument, edit the returned array, another utility in between}
         targets = ['threshold_absolute', 'threshold_proportional', 'binarize', 'normalize', 'invert',
                    'weight_conversion/binarize', 'weight_conversion/normalize', 'weight_conversion/lengths']
@@ -860,7 +997,7 @@ def main():
     for c in tp_cases:
         ck.count('tp_kind:' + c['kind'].split('/')[0]); ck.count('n=%d' % c['n'])
     results = []
-    for fn, cs in ((run_tp, tp_cases), (run_tp_param, par_cases), (run_el, el_cases), (run_round, rd_cases), (run_repr, rp_cases), (run_reuse, ru_cases)):
+    for fn, cs in ((run_tp, tp_cases), (run_tp_param, par_cases), (run_el, el_cases), (run_round, rd_cases), (run_repr, rp_cases), (run_reuse, ru_cases), (run_special, sp_cases)):
         cs = [cs[i] for i in rs.permutation(len(cs))]        # workers interleave matrices, sizes and options
         results += pmap(fn, cs)
     items = []
@@ -879,7 +1016,14 @@ def main():
     if ok:
         try:
             lines = [it[0] for it in items]
-            outs = run_driver('Thresh', lines + MALFORMED, timeout=2400)
+            # the interpreted driver is single-threaded: run it on 6 slices in parallel (order preserved)
+            from concurrent.futures import ThreadPoolExecutor
+            allin = lines + MALFORMED
+            nch = 6 if len(allin) > 600 else 1
+            sz = (len(allin) + nch - 1) // nch
+            with ThreadPoolExecutor(nch) as ex:
+                parts = list(ex.map(lambda ch: run_driver('Thresh', ch, timeout=2400), [allin[i:i + sz] for i in range(0, len(allin), sz)]))
+            outs = [o for pt in parts for o in pt]
             nd = 0
             for (line, exp, fname), o in zip(items, outs[:len(lines)]):
                 if isinstance(exp, tuple):      # ('float', values): the exact model value converted to double must equal the NumPy double
